@@ -5,7 +5,7 @@ rule = ("for every indicator except RSI: a base stream of positive prices / vali
         "sampled larger) in slot 0 and the same stream with every price multiplied by c in slot 1: c = 2^k for k in {-40,-1,1,40} (quick) / all "
         "k in -40..40 (thorough; 2^-70, 2^-40 and 2^40 always) compared within 1e-12 relative (bit-for-bit expected), c in {3, 0.1, 1e-5, 12345.678} within 1e-9; multipliers {0.5, 2, 25}; price-valued "
         "outputs must scale by c, dimensionless ones stay; slot 2 gets the stream shifted by d (of the order of the level, and 2^20..2^30 levels; SD/BB variances under the 2^30 shift at 1e-12*t*level*shifted level): SMA/EMA/WMA/MIN/MAX and "
-        "band levels shift by d, SD/MAD/TR/ATR/MACD/FAST stay; slot 3 runs Minimum on the negated stream against Maximum. Comparisons are made "
+        "band levels shift by d, SD/MAD/TR/ATR/MACD/FAST stay; plus one long run per indicator (4300 steps for the running-sum ones, 1100 for the others) with c = 1/4 and d = 64; slot 3 runs Minimum on the negated stream against Maximum. Comparisons are made "
         "where the outputs are finite and well-conditioned. Non-trivial: distinct (case, factor) longer than the period")
 assumptions = ["well-conditioning of ratio outputs is approximated by skipping steps whose outputs are non-finite or whose reference window is flat"]
 
@@ -48,6 +48,21 @@ def gen_cases(ctx):
                 for v in base:
                     ops += [mk(0, v, 1.0, 0.0), mk(1, v, f, 0.0), mk(2, v, 1.0, d)]
                 cases.append(Case("%s_g%d_f%d" % (ind, gi, fi), ops, dump=(), meta={"ind": ind, "params": pr, "factor": f, "shift": d, "n": n, "pow2": fi < len(factors) - 1}))
+    # seed-independent long runs (4300 steps): the scaled (x 0.25) and the shifted (+ 64) copies next to the base stream — code that
+    # only executes every 2^10 / 2^12 updates must be covariant too
+    for ind in ALL:
+        if ind == "RSI":
+            continue
+        pr = long_params(ind, 5)
+        nlong = 4300 if ind in ("SMA", "WMA", "SD", "MAD", "BB", "CCI", "MFI", "OBV") else 1100    # running sums / the others
+        fd = long_feed(ind, nlong)
+        ops = [new_op(s_, ind, pr) for s_ in range(3)]
+        for o in fd:
+            if o[0] == "b":
+                ops += [o, ("b", 1) + tuple(v * 0.25 for v in o[2:6]) + (o[6],), ("b", 2) + tuple(v + 64.0 for v in o[2:6]) + (o[6],)]
+            else:
+                ops += [o, ("n", 1, o[2] * 0.25), ("n", 2, o[2] + 64.0)]
+        cases.append(Case("%s_long" % ind, ops, dump=(), meta={"ind": ind, "params": pr, "factor": 0.25, "shift": 64.0, "n": nlong, "pow2": True}))
     # Maximum(x) = -Minimum(-x)
     for p in [1, 2, 3, 5, 9]:
         for rep in range(3):
